@@ -664,6 +664,8 @@ func runCase(c *hx.Ctx, id string, g cfg, r *hx.Rng) {
 		c.Fail(id, "-", "table just written is not read back", desc)
 		return
 	}
+	_, staleIsKind := ml.KindByName(g.stale)
+	staleThere := staleIsKind && sigPresent(w, g.stale)
 	w.dev.ResetLog()
 	w.dev.Allowed = []memdev.Range{{Lo: w.start, Hi: w.end}}
 	err = func() (err error) {
@@ -695,6 +697,7 @@ func runCase(c *hx.Ctx, id string, g cfg, r *hx.Rng) {
 	if g.kind == "squashfs" && c.Want(id+"/sqfslast") {
 		sqfsLastCase(c, id+"/sqfslast", w)
 	}
+	surviveStat(c, w, g, staleThere)
 	c.Stat("created." + g.kind)
 	c.Stat("class." + g.class)
 	c.Stat("stale." + g.stale)
